@@ -1,5 +1,6 @@
 ----------------------------- MODULE FF_M -----------------------------
-(* instance M: protein-named chains of 2..3 residues, links that remove / retype atoms, -mods selections *)
+(* instance M: chains of 2..3 residues over GLY, ALA and a non-protein residue named GLYC / XALA (begins with / contains an  *)
+(* amino-acid name, carries the atom names the modifications target), links that remove / retype atoms, -mods selections      *)
 EXTENDS FFExport
 MCFFs == FFsM
 MCInputs == InputsM({1, 2, 3}, {2, 3}, {1, 5})
